@@ -288,7 +288,7 @@ pub fn gen_store_cfg(r: &mut Rng) -> StoreCfg {
 }
 
 pub fn plain_op(kind: OpKind) -> Op {
-    Op { kind, yields: Vec::new(), faults: Vec::new(), user: Vec::new(), cancel_after: None, unknown_type: Vec::new() }
+    Op { kind, yields: Vec::new(), faults: Vec::new(), user: Vec::new(), cancel_after: None, unknown_type: Vec::new(), list_transports: Vec::new() }
 }
 
 pub fn ceremony(backend: Backend, wrap: Wrap, store: StoreCfg) -> Ceremony {
